@@ -676,6 +676,115 @@ def pred_classes(req):
     return r, [c for c, _ in pred(r, snap, exc)], pred(r, snap, exc)
 
 
+
+# ----------------------------------------------------------------------------- cleanup of the other two classes
+# (SimplicialComplex.cleanup, DiHypergraph.cleanup: predicate on the implementation only, no model)
+
+def run_other(req):
+    """returns list of (failure_class, detail) for an sc_cleanup / dh_cleanup request"""
+    fails = []
+    bad = lambda c, d="": fails.append((c, d))
+    if req["f"] == "sc_cleanup":
+        H = build_enc(req["H"])
+        nodes = list(H.nodes)
+        mem = {e: frozenset(H.edges.members(e)) for e in H.edges}
+        fl = {k: req[k] for k in ("isolates", "connected", "relabel")}
+        try:
+            with warnings.catch_warnings():
+                warnings.simplefilter("ignore")
+                H.cleanup(**fl)
+        except Exception as ex:  # noqa
+            kn = nodes if fl["isolates"] else [n for n in nodes if any(n in m for m in mem.values())]
+            if fl["connected"] and not kn and isinstance(ex, ValueError):
+                return [("raises-on-null-network", f"SimplicialComplex.cleanup({fl}) raised {type(ex).__name__}: {ex}")]
+            return [("raised", f"SimplicialComplex.cleanup({fl}) raised {type(ex).__name__}: {ex}")]
+        rn = list(H.nodes)
+        rmem = {e: frozenset(H.edges.members(e)) for e in H.edges}
+        if not fl["isolates"] and any(not any(n in m for m in rmem.values()) for n in rn):
+            bad("isolated-node-left", f"{rn} {rmem}")
+        if fl["connected"] and len(components(rn, rmem)) > 1:
+            bad("not-connected", f"{components(rn, rmem)}")
+        if fl["relabel"] and (rn != list(range(len(rn))) or list(rmem) != list(range(len(rmem)))):
+            bad("labels-not-a-range", f"{rn} {list(rmem)}")
+        on = {n: (H.nodes[n].get("label") if fl["relabel"] else n) for n in rn}
+        kn = nodes if fl["isolates"] else [n for n in nodes if any(n in m for m in mem.values())]
+        if fl["connected"]:
+            comps = components(kn, mem)
+            if comps:
+                big = max(len(c) for c in comps)
+                kn = next(c for c in comps if len(c) == big)
+        if [on[n] for n in rn] != [n for n in nodes if n in set(kn)]:
+            bad("nodes-differ-from-definition", f"got {[on[n] for n in rn]} want {[n for n in nodes if n in set(kn)]}")
+        else:
+            got = sorted(sorted(map(repr, (on[x] for x in m))) for m in rmem.values())
+            want = sorted(sorted(map(repr, m)) for m in mem.values() if m <= set(kn))
+            if got != want:
+                bad("simplices-differ-from-definition", f"got {got} want {want}")
+        return fails
+    if req["f"] == "dh_cleanup":
+        D = req["DH"]
+        DH = xgi.DiHypergraph()
+        DH.add_nodes_from([dec_id(n) for n in D["nodes"]])
+        DH.add_edges_from([(([dec_id(x) for x in t], [dec_id(x) for x in h]), dec_id(e), {}) for e, t, h in D["edges"]])
+        nodes = list(DH.nodes)
+        dm = {e: (frozenset(DH.edges.dimembers(e)[0]), frozenset(DH.edges.dimembers(e)[1])) for e in DH.edges}
+        fl = {k: req[k] for k in ("isolates", "relabel")}
+        try:
+            with warnings.catch_warnings():
+                warnings.simplefilter("ignore")
+                DH.cleanup(**fl)
+        except Exception as ex:  # noqa
+            return [("raised", f"DiHypergraph.cleanup({fl}) raised {type(ex).__name__}: {ex}")]
+        rn = list(DH.nodes)
+        rdm = {e: (frozenset(DH.edges.dimembers(e)[0]), frozenset(DH.edges.dimembers(e)[1])) for e in DH.edges}
+        used = {x for t, h in rdm.values() for x in t | h}
+        if not fl["isolates"] and any(n not in used for n in rn):
+            bad("isolated-node-left", f"{rn} {rdm}")
+        if fl["relabel"] and (rn != list(range(len(rn))) or list(rdm) != list(range(len(rdm)))):
+            bad("labels-not-a-range", f"{rn} {list(rdm)}")
+        on = {n: (DH.nodes[n].get("label") if fl["relabel"] else n) for n in rn}
+        oe = {e: (DH.edges[e].get("label") if fl["relabel"] else e) for e in rdm}
+        inuse = {x for t, h in dm.values() for x in t | h}
+        want_n = nodes if fl["isolates"] else [n for n in nodes if n in inuse]
+        if [on[n] for n in rn] != want_n:
+            bad("nodes-differ-from-definition", f"got {[on[n] for n in rn]} want {want_n}")
+        elif [oe[e] for e in rdm] != list(dm):
+            bad("edges-differ-from-definition", f"got {[oe[e] for e in rdm]} want {list(dm)}")
+        else:
+            for e in rdm:
+                got = (frozenset(on[x] for x in rdm[e][0]), frozenset(on[x] for x in rdm[e][1]))
+                if got != dm[oe[e]]:
+                    bad("members-changed", f"edge {oe[e]!r}: got {got} want {dm[oe[e]]}")
+        return fails
+    raise AssertionError(req["f"])
+
+
+def gen_other(rng):
+    if rng.random() < 0.5:
+        H = gen_net(rng, "sc", max_nodes=6, max_edges=3, frozen=0.0)
+        return {"f": "sc_cleanup", "H": H, "isolates": rng.random() < 0.5, "connected": rng.random() < 0.5,
+                "relabel": rng.random() < 0.5}
+    nodes, edges = fn.gen_hypergraph(rng, max_nodes=6, max_edges=5)
+    des = []
+    for e, ms in edges:
+        k = rng.randint(0, len(ms))
+        if repr(e) not in {repr(x[0]) for x in des}:
+            des.append([enc_id(e), [enc_id(x) for x in ms[:k]], [enc_id(x) for x in ms[k:]] + ([enc_id(rng.choice(nodes))] if rng.random() < 0.3 else [])])
+    return {"f": "dh_cleanup", "DH": {"nodes": [enc_id(n) for n in nodes], "edges": des},
+            "isolates": rng.random() < 0.5, "relabel": rng.random() < 0.5}
+
+
+OTHER_SITE = {"sc_cleanup": "SimplicialComplex.cleanup", "dh_cleanup": "DiHypergraph.cleanup"}
+
+
+def evaluate_other(ctx, reqs):
+    for req in reqs:
+        fails = run_other(copy.deepcopy(req))
+        ctx.evaluations += 1
+        ctx.stats["fn:" + req["f"]] += 1
+        if fails:
+            ctx.violation(OTHER_SITE[req["f"]], fails[0][0], req, detail=fails[0][1])
+
 # ----------------------------------------------------------------------------- the check
 
 SITE = {"subhypergraph": "subhypergraph", "dual": "Hypergraph.dual", "dual2": "Hypergraph.dual", "lshift": "Hypergraph.__lshift__",
@@ -768,9 +877,9 @@ def run(ctx):
         reqs.append({"f": "relabel", "H": H, "label_attribute": "label", "in_place": False})
         reqs.append({"f": "lshift", "H": H, "H2": AWKWARD[(AWKWARD.index(H) + 3) % len(AWKWARD)]})
     for f in FUNCS:
-        reqs += [gen_case(rng, f) for _ in range(ctx.n(40, 1500))]
+        reqs += [gen_case(rng, f) for _ in range(ctx.n(250, 2500))]
     # every flag combination on random networks
-    for _ in range(ctx.n(6, 120)):
+    for _ in range(ctx.n(30, 250)):
         reqs += list(all_flag_cases(gen_net(rng, "hg", max_nodes=7, max_edges=7, frozen=0.0)))
     if not ctx.quick:
         reqs += list(small_scope_cases())
@@ -780,6 +889,8 @@ def run(ctx):
                                          "subhypergraph 3x2 selections, relabel, all 32 cleanup flag settings}; simplicial "
                                          "complexes generated by <=2 simplices x {from_max_simplices, k_skeleton 0..2}")
     done, results = evaluate(ctx, reqs)
+    evaluate_other(ctx, [{"f": "sc_cleanup", "H": {"nodes": [], "edges": [], "cls": "sc"}, "isolates": False, "connected": True, "relabel": True}]
+                   + [gen_other(rng) for _ in range(ctx.n(150, 4000))])
     dis = correspond(ctx, done, results)
 
     def search():
@@ -807,6 +918,12 @@ def run(ctx):
 def replay(ctx, path):
     j = json.load(open(path))
     case = j.get("case", j)
+    if case.get("f") in OTHER_SITE:
+        fails = run_other(copy.deepcopy(case))
+        print(json.dumps({"request": case, "predicate_failures": fails}, default=repr)[:4000])
+        for c, d in fails:
+            ctx.violation(OTHER_SITE[case["f"]], c, case, detail=d)
+        return finish(ctx, trusted_base=TRUSTED_COMMON)
     r, snap, exc = run_impl(case)
     fails = pred(r, snap, exc)
     print(json.dumps({"request": r, "impl": norm(r["f"], snap), "predicate_failures": fails}, default=repr)[:4000])
